@@ -32,7 +32,7 @@ SPECIAL = {
     ("s3", "g1", "tp"): 1e16,
     ("s3", "g1", "global_bin_dsc"): -0.25,
 }
-SUBJECTS = ["s1", "s2", "s3", 'sub-004 "T1 post" x']
+SUBJECTS = ["s1", "s2", "s3", 'sub-004 "T1 post" x', " s5 leading blank"]
 
 
 def value_of(si, s, g, k):
